@@ -419,8 +419,44 @@ type caseJobs struct {
 }
 
 func replay(casesPath, outPath string) {
+	out := kit.NewOut(outPath)
 	var cs []*caseJobs
 	var jobs []*job
+	id, ncases, ndecodes := 0, 0, 0
+	// cases are processed in batches so that memory stays bounded in the thorough tier
+	flush := func() {
+		runJobs(jobs, prog)
+		for _, cj := range cs {
+			ev := M{"id": id, "f": cj.c.F, "part": cj.c.Part, "kind": cj.c.Kind, "val": cj.c.Val, "n": len(cj.data),
+				"tree": b2i(cj.full.tree), "err": b2i(cj.full.err), "errmsg": cj.full.errmsg + cj.full.noTree, "got": gotOf(cj.full)}
+			id++
+			tr := [][3]int{}
+			for k, j := range cj.truncs {
+				tr = append(tr, [3]int{cj.c.Cuts[k], b2i(j.tree), b2i(j.err)})
+			}
+			ev["truncs"] = tr
+			tl := []M{}
+			for k, j := range cj.trails {
+				lo := int64(len(cj.data)) * 8
+				hi := int64(len(j.data)) * 8
+				gap, exact := false, false
+				for _, g := range j.gaps {
+					if g[0] <= lo && g[1] >= hi { // the trailing bytes lie inside a gap field
+						gap = true
+					}
+					if g[0] == lo && g[1] == hi {
+						exact = true
+					}
+				}
+				tl = append(tl, M{"trail": cj.c.Trails[k], "tree": b2i(j.tree), "err": b2i(j.err), "got": gotOf(j), "gap": b2i(gap), "gapx": b2i(exact)})
+			}
+			ev["trails"] = tl
+			out.Emit(ev)
+		}
+		ncases += len(cs)
+		ndecodes += len(jobs)
+		cs, jobs = nil, nil
+	}
 	kit.Cases(casesPath, func(_ int, raw []byte) {
 		cj := &caseJobs{}
 		kit.Unmarshal(raw, &cj.c)
@@ -442,41 +478,18 @@ func replay(casesPath, outPath string) {
 			jobs = append(jobs, j)
 		}
 		cs = append(cs, cj)
+		if len(jobs) >= 60000 {
+			flush()
+		}
 	})
-	runJobs(jobs, prog)
-	out := kit.NewOut(outPath)
-	for id, cj := range cs {
-		ev := M{"id": id, "f": cj.c.F, "part": cj.c.Part, "kind": cj.c.Kind, "val": cj.c.Val, "n": len(cj.data),
-			"tree": b2i(cj.full.tree), "err": b2i(cj.full.err), "errmsg": cj.full.errmsg + cj.full.noTree, "got": gotOf(cj.full)}
-		tr := [][3]int{}
-		for k, j := range cj.truncs {
-			tr = append(tr, [3]int{cj.c.Cuts[k], b2i(j.tree), b2i(j.err)})
-		}
-		ev["truncs"] = tr
-		tl := []M{}
-		for k, j := range cj.trails {
-			lo := int64(len(cj.data)) * 8
-			hi := int64(len(j.data)) * 8
-			gap, exact := false, false
-			for _, g := range j.gaps {
-				if g[0] <= lo && g[1] >= hi { // the trailing bytes lie inside a gap field
-					gap = true
-				}
-				if g[0] == lo && g[1] == hi {
-					exact = true
-				}
-			}
-			tl = append(tl, M{"trail": cj.c.Trails[k], "tree": b2i(j.tree), "err": b2i(j.err), "got": gotOf(j), "gap": b2i(gap), "gapx": b2i(exact)})
-		}
-		ev["trails"] = tl
-		out.Emit(ev)
-	}
+	flush()
 	out.Close()
-	fmt.Printf("cases=%d decodes=%d\n", len(cs), len(jobs))
+	fmt.Printf("cases=%d decodes=%d\n", ncases, ndecodes)
 }
 
 func main() {
-	debug.SetGCPercent(800)
+	debug.SetGCPercent(400)
+	debug.SetMemoryLimit(6 << 30)
 	if len(os.Args) < 2 {
 		kit.Fatalf("usage")
 	}
